@@ -124,6 +124,9 @@ Location locate_hunk(const std::vector<Line>& content, const Hunk& hunk, bool ig
 
     LineNumber context = std::max(patch_prefix_content, patch_suffix_content);
 
+    // Fuzz only ever ignores context lines, so it can never be more than the context this hunk has.
+    max_fuzz = std::min(max_fuzz, context);
+
     for (LineNumber fuzz = 0; fuzz <= max_fuzz; ++fuzz) {
 
         auto suffix_fuzz = std::max<LineNumber>(fuzz + patch_suffix_content - context, 0);
